@@ -54,7 +54,7 @@ pub struct GenOpts {
 }
 impl Default for GenOpts {
     fn default() -> Self {
-        GenOpts { error_values: false, formula_cached_non_text: false, annotations: true }
+        GenOpts { error_values: true, formula_cached_non_text: true, annotations: true }
     }
 }
 
@@ -262,10 +262,18 @@ pub fn view(book: &Spreadsheet) -> String {
             let ws = book.get_sheet(&i).unwrap();
             let mut cells = vec![];
             let mut links = vec![];
+            let mut shared_seen: std::collections::HashSet<u32> = std::collections::HashSet::new();
             for c in ws.get_cell_collection_sorted() {
                 let coord = c.get_coordinate().get_coordinate();
                 let kind = c.get_data_type();
-                let f = c.get_formula();
+                // a shared-formula child is written as a reference to its master (`<f t="shared" si=…/>`);
+                // what the reference expands to is C03's subject, here only the structure is compared
+                let is_child = match c.get_formula_shared_index() {
+                    Some(si) => !shared_seen.insert(*si),
+                    None => false,
+                };
+                let f_owned: String = if is_child { "\u{1}shared".to_string() } else { c.get_formula().to_string() };
+                let f: &str = &f_owned;
                 if !(kind.is_empty() && f.is_empty()) {
                     cells.push(format!("{}/{}/{}/{}", coord, kind, hexs(&c.get_value()), if f.is_empty() { "~".to_string() } else { hexs(f) }));
                 }
